@@ -4,6 +4,7 @@
 package main
 
 import (
+	"github.com/gorilla/websocket"
 	sadns "github.com/bokysan/socketace/v2/internal/streams/dns"
 	"bytes"
 	"fmt"
@@ -437,6 +438,12 @@ func init() {
 					dc.Write([]byte("X-SOCKETACE / HTTP/1.1\r\nAccepts-Protocol-Version: v2.0.0\r\n\r\n"))
 				case "garbage":
 					dc.Write([]byte{0, 1, 2, 3, 255, 254})
+				case "scanner":
+					dc.Write([]byte("GET /\r\n\r\n"))
+				case "garbage-vanish":
+					// a complete but invalid request (the server's refusal is queued for the peer), then the peer stops polling for good
+					dc.Write([]byte("GARBAGE GARBAGE GARBAGE\r\n\r\n"))
+					comm.Close()
 				}
 				if stale > 0 {
 					comm.Close() // the peer vanishes without a word: no polling, no close request; its session stays behind
@@ -444,6 +451,18 @@ func init() {
 			}
 			for sp := 0; sp < stalled && carrier != "dns"; sp++ {
 				var c net.Conn
+				if stall == "upgraded" || stall == "upgraded-halfline" {
+					// a websocket peer that completes the websocket upgrade and stalls inside the session handshake
+					wc, _, err := websocket.DefaultDialer.Dial("ws://"+srv+"/ws", nil)
+					if err != nil {
+						return []Tok{TW("setup"), TW("stall-dial")}
+					}
+					defer wc.Close()
+					if stall == "upgraded-halfline" {
+						wc.WriteMessage(websocket.BinaryMessage, []byte("X-SOCKETACE / HT"))
+					}
+					continue
+				}
 				if strings.HasPrefix(carrier, "kcp") {
 					c, err = kcp.DialWithOptions(srv, nil, 10, 3)
 				} else {
@@ -464,6 +483,8 @@ func init() {
 					c.Write([]byte("X-SOCKETACE / HTTP/1.1\r\nAccepts-Protocol-Version: v2.0.0\r\n\r\nGET / HTTP/1.1\r\nUpgrade: socketace/v2.0.0\r\nConnection: upgrade\r\nSecurity: StartTLS\r\n\r\n\x16\x03\x01"))
 				case "garbage":
 					c.Write([]byte{0, 1, 2, 3, 255, 254})
+				case "scanner":
+					c.Write([]byte("GET /\r\n\r\n")) // what a port scanner sends: a complete request whose first line has one blank
 				}
 			}
 			time.Sleep(60 * time.Millisecond)
@@ -790,7 +811,7 @@ type timeoutErr struct{}
 
 func (timeoutErr) Error() string   { return "read: connection timed out" }
 func (timeoutErr) Timeout() bool   { return true }
-func (timeoutErr) Temporary() bool { return false }
+func (timeoutErr) Temporary() bool { return true } // (as the kernel's ETIMEDOUT: both a time-out and "temporary")
 
 func (c *errTimeoutConn) Read(p []byte) (int, error) {
 	for {
